@@ -30,27 +30,29 @@ var translatedOps = []string{
 	"opAdd", "opSub", "opMul", "opDiv", "opSdiv", "opMod", "opSmod", "opExp", "opSignExtend",
 	"opNot", "opLt", "opGt", "opSlt", "opSgt", "opEq", "opIszero", "opAnd", "opOr", "opXor",
 	"opByte", "opAddmod", "opMulmod", "opSHL", "opSHR", "opSAR",
-	"opPop", "opMload", "opMstore", "opMstore8", "opMsize",
+	"opPop", "opMload", "opMstore", "opMstore8", "opMsize", "opSload", "opSstore", "opStop",
 }
+
+// closure makers of instructions.go that are translated with their parameters
+var translatedClosures = []string{"makePush", "makeDup", "makeSwap"}
 
 // functions that the Coq model mirrors by hand: only their normalised source
 // is fingerprinted (file, receiver-qualified name)
 var fingerprinted = [][2]string{
 	{"core/vm/stack.go", "Stack.push"}, {"core/vm/stack.go", "Stack.pop"}, {"core/vm/stack.go", "Stack.peek"},
-	{"core/vm/stack.go", "Stack.dup"}, {"core/vm/stack.go", "Stack.swap"}, {"core/vm/stack.go", "Stack.Back"},
+	{"core/vm/stack.go", "Stack.Back"},
 	{"core/vm/intpool.go", "intPool.get"}, {"core/vm/intpool.go", "intPool.getZero"}, {"core/vm/intpool.go", "intPool.put"},
 	{"core/vm/memory.go", "Memory.Set32"}, {"core/vm/memory.go", "Memory.Get"}, {"core/vm/memory.go", "Memory.Resize"},
 	{"core/vm/memory.go", "Memory.Len"},
-	{"core/vm/instructions.go", "makePush"}, {"core/vm/instructions.go", "makeDup"}, {"core/vm/instructions.go", "makeSwap"},
-	{"core/vm/instructions.go", "opStop"},
 	{"core/vm/interpreter.go", "EVMInterpreter.Run"},
 	{"core/vm/gas_table.go", "memoryGasCost"}, {"core/vm/gas_table.go", "pureMemoryGascost"}, {"core/vm/gas_table.go", "gasExp"},
 	{"core/vm/memory_table.go", "memoryMLoad"}, {"core/vm/memory_table.go", "memoryMStore"}, {"core/vm/memory_table.go", "memoryMStore8"},
 	{"core/vm/common.go", "calcMemSize"}, {"core/vm/common.go", "bigUint64"}, {"core/vm/common.go", "toWordSize"},
 	{"core/vm/contract.go", "Contract.GetOp"}, {"core/vm/contract.go", "Contract.GetByte"}, {"core/vm/contract.go", "Contract.UseGas"},
-	{"common/math/big.go", "Exp"}, {"common/math/big.go", "Byte"}, {"common/math/big.go", "bigEndianByteAt"},
-	{"common/math/big.go", "ReadBits"}, {"common/math/big.go", "BigPow"},
+	{"common/math/big.go", "Exp"}, {"common/math/big.go", "ReadBits"}, {"common/math/big.go", "BigPow"},
 	{"common/bytes.go", "RightPadBytes"},
+	{"common/types.go", "BigToHash"}, {"common/types.go", "BytesToHash"}, {"common/types.go", "Hash.SetBytes"}, {"common/types.go", "Hash.Bytes"},
+	{"core/vm/gas_table.go", "gasSStoreEIP2200"},
 }
 
 type sortT int
@@ -58,18 +60,22 @@ type sortT int
 const (
 	sPtr sortT = iota
 	sInt
+	sHash
+	sWords // alias of x.Bits() for a *big.Int variable x
 )
 
 type varInfo struct {
 	id   int
 	sort sortT
 	ity  string // U64 I64 U8 for ints
+	of   int    // sWords: id of the *big.Int variable whose words these are
 }
 
 type pkgInfo struct {
 	name    string // package name as used in selectors ("vm", "math", "common")
 	funcs   map[string]*ast.FuncDecl
 	globals map[string]ast.Expr // package level var initialisers
+	consts  map[string]ast.Expr // package level const initialisers
 }
 
 type translator struct {
@@ -87,6 +93,7 @@ type translator struct {
 	defers []string // translated deferred statements
 	// names of the executionFunc parameters
 	pPC, pInterp, pContract, pMemory, pStack string
+	pools                                     []string // expressions denoting the interpreter's integer pool
 	where                                     string
 }
 
@@ -106,7 +113,7 @@ func (t *translator) str(n ast.Node) string {
 }
 
 func (t *translator) parsePkg(name string, files ...string) {
-	p := &pkgInfo{name: name, funcs: map[string]*ast.FuncDecl{}, globals: map[string]ast.Expr{}}
+	p := &pkgInfo{name: name, funcs: map[string]*ast.FuncDecl{}, globals: map[string]ast.Expr{}, consts: map[string]ast.Expr{}}
 	for _, f := range files {
 		af, err := parser.ParseFile(t.fset, f, nil, 0)
 		if err != nil {
@@ -128,14 +135,18 @@ func (t *translator) parsePkg(name string, files ...string) {
 				}
 				p.funcs[n] = d
 			case *ast.GenDecl:
-				if d.Tok != token.VAR {
+				if d.Tok != token.VAR && d.Tok != token.CONST {
 					continue
 				}
 				for _, s := range d.Specs {
 					vs := s.(*ast.ValueSpec)
 					if len(vs.Values) == len(vs.Names) {
 						for i, nm := range vs.Names {
-							p.globals[nm.Name] = vs.Values[i]
+							if d.Tok == token.VAR {
+								p.globals[nm.Name] = vs.Values[i]
+							} else {
+								p.consts[nm.Name] = vs.Values[i]
+							}
 						}
 					}
 				}
@@ -148,6 +159,9 @@ func (t *translator) parsePkg(name string, files ...string) {
 		}
 		for k, v := range p.globals {
 			old.globals[k] = v
+		}
+		for k, v := range p.consts {
+			old.consts[k] = v
 		}
 		return
 	}
@@ -318,10 +332,12 @@ func (t *translator) isPtr(e ast.Expr) bool {
 		}
 		_, ok := t.pkg.globals[e.Name]
 		return ok
+	case *ast.IndexExpr:
+		return t.str(e.X) == t.pStack+".data"
 	case *ast.CallExpr:
 		fn := t.str(e.Fun)
 		switch fn {
-		case t.pStack + ".pop", t.pStack + ".peek", t.pInterp + ".intPool.get", t.pInterp + ".intPool.getZero",
+		case t.pStack + ".pop", t.pStack + ".peek", t.poolFn("get", fn), t.poolFn("getZero", fn),
 			"big.NewInt", "math.Exp":
 			return true
 		case "new":
@@ -352,6 +368,17 @@ func (t *translator) isPtr(e ast.Expr) bool {
 		}
 	}
 	return false
+}
+
+// poolFn returns fn itself if fn is "<pool>.<method>" for one of the expressions
+// that denote the integer pool, and an impossible name otherwise (for use in switch cases).
+func (t *translator) poolFn(method, fn string) string {
+	for _, p := range t.pools {
+		if fn == p+"."+method {
+			return fn
+		}
+	}
+	return "\x00no-pool"
 }
 
 func (t *translator) lookupShadow(name string) bool { _, ok := t.lookupVar(name); return ok }
@@ -430,6 +457,14 @@ func (t *translator) transP(e ast.Expr) string {
 	switch e := e.(type) {
 	case *ast.ParenExpr:
 		return t.transP(e.X)
+	case *ast.IndexExpr:
+		if t.str(e.X) == t.pStack+".data" {
+			i, ty := t.transI(e.Index)
+			if ty != "I64" && ty != "" {
+				t.fail(e, "stack index of type %s", ty)
+			}
+			return fmt.Sprintf("(PStackAt %s)", i)
+		}
 	case *ast.Ident:
 		if v, ok := t.lookupVar(e.Name); ok {
 			if v.sort != sPtr {
@@ -453,10 +488,10 @@ func (t *translator) transP(e ast.Expr) string {
 		case t.pStack + ".peek":
 			noArgs()
 			return "PPeek"
-		case t.pInterp + ".intPool.get":
+		case t.poolFn("get", fn):
 			noArgs()
 			return "PGet"
-		case t.pInterp + ".intPool.getZero":
+		case t.poolFn("getZero", fn):
 			noArgs()
 			return "PGetZero"
 		case "big.NewInt":
@@ -541,7 +576,75 @@ func (t *translator) transP(e ast.Expr) string {
 	return ""
 }
 
+// isHash decides syntactically whether an expression has type common.Hash.
+func (t *translator) isHash(e ast.Expr) bool {
+	switch e := e.(type) {
+	case *ast.ParenExpr:
+		return t.isHash(e.X)
+	case *ast.Ident:
+		v, ok := t.lookupVar(e.Name)
+		return ok && v.sort == sHash
+	case *ast.CallExpr:
+		fn := t.str(e.Fun)
+		return (fn == "common.BigToHash" && !t.lookupShadow("common")) || fn == t.pInterp+".evm.StateDB.GetState"
+	}
+	return false
+}
+
+// contractAddr checks that the account argument of a StateDB call is the
+// executing contract (the model has one storage: the contract's own).
+func (t *translator) contractAddr(e ast.Expr) {
+	if t.str(e) != t.pContract+".Address()" {
+		t.fail(e, "state access of an account other than the executing contract: %s", t.str(e))
+	}
+}
+
+func (t *translator) transH(e ast.Expr) string {
+	switch e := e.(type) {
+	case *ast.ParenExpr:
+		return t.transH(e.X)
+	case *ast.Ident:
+		if v, ok := t.lookupVar(e.Name); ok && v.sort == sHash {
+			return fmt.Sprintf("(HVar %d (* %s *))", v.id, e.Name)
+		}
+	case *ast.CallExpr:
+		fn := t.str(e.Fun)
+		switch {
+		case fn == "common.BigToHash" && !t.lookupShadow("common") && len(e.Args) == 1:
+			// fingerprinted: BytesToHash(b.Bytes())
+			return fmt.Sprintf("(HOfBig %s)", t.transP(e.Args[0]))
+		case fn == t.pInterp+".evm.StateDB.GetState" && len(e.Args) == 2:
+			t.contractAddr(e.Args[0])
+			return fmt.Sprintf("(HGetState %s)", t.transH(e.Args[1]))
+		}
+	}
+	t.fail(e, "unsupported common.Hash expression %s", t.str(e))
+	return ""
+}
+
 func (t *translator) transB(e ast.Expr) string {
+	if sl, ok := e.(*ast.SliceExpr); ok && t.str(sl.X) == t.pContract+".Code" && sl.Low != nil && sl.High != nil && !sl.Slice3 {
+		a, ta := t.transI(sl.Low)
+		b, tb := t.transI(sl.High)
+		if (ta != "I64" && ta != "") || (tb != "I64" && tb != "") {
+			t.fail(e, "slice bounds of types %s %s", ta, tb)
+		}
+		return fmt.Sprintf("(BCodeSlice %s %s)", a, b)
+	}
+	if c, ok := e.(*ast.CallExpr); ok && t.str(c.Fun) == "common.RightPadBytes" && len(c.Args) == 2 && !t.lookupShadow("common") {
+		// fingerprinted: pads with zero bytes on the right up to the length
+		b := t.transB(c.Args[0])
+		n, tn := t.transI(c.Args[1])
+		if tn != "I64" && tn != "" {
+			t.fail(e, "pad length of type %s", tn)
+		}
+		return fmt.Sprintf("(BRightPad %s %s)", b, n)
+	}
+	if c, ok := e.(*ast.CallExpr); ok && len(c.Args) == 0 {
+		if sel, ok := c.Fun.(*ast.SelectorExpr); ok && sel.Sel.Name == "Bytes" && t.isHash(sel.X) {
+			return fmt.Sprintf("(BHashBytes %s)", t.transH(sel.X))
+		}
+	}
 	if c, ok := e.(*ast.CallExpr); ok && t.str(c.Fun) == t.pMemory+".Get" && len(c.Args) == 2 {
 		o, ty1 := t.transI(c.Args[0])
 		s, ty2 := t.transI(c.Args[1])
@@ -591,7 +694,43 @@ func (t *translator) transI(e ast.Expr) (string, string) {
 		if v, ok := t.lookupVar(e.Name); ok && v.sort == sInt {
 			return fmt.Sprintf("(IVar %d (* %s *))", v.id, e.Name), v.ity
 		}
+		if _, shadow := t.lookupVar(e.Name); !shadow {
+			if k, ok := t.pkgConst(e.Name); ok {
+				return fmt.Sprintf("(IConst (%d) (* %s *))", k, e.Name), ""
+			}
+		}
+	case *ast.StarExpr:
+		if id, ok := e.X.(*ast.Ident); ok && id.Name == t.pPC {
+			return "(IVar pcvar (* *pc *))", "U64"
+		}
+	case *ast.IndexExpr:
+		if id, ok := e.X.(*ast.Ident); ok {
+			if v, ok := t.lookupVar(id.Name); ok && v.sort == sWords {
+				i, ti := t.transI(e.Index)
+				if ti != "I64" && ti != "" {
+					t.fail(e, "word index of type %s", ti)
+				}
+				return fmt.Sprintf("(IWordAt (PVar %d) %s)", v.of, i), "U64"
+			}
+		}
 	case *ast.BinaryExpr:
+		if e.Op == token.QUO || e.Op == token.REM {
+			a, ta := t.transI(e.X)
+			b, tb := t.transI(e.Y)
+			ty, ok := unify(ta, tb)
+			if !ok || ty == "" {
+				t.fail(e, "division of %s by %s", ta, tb)
+			}
+			return fmt.Sprintf("(%s %s %s %s)", map[token.Token]string{token.QUO: "IDiv", token.REM: "IMod"}[e.Op], ty, a, b), ty
+		}
+		if e.Op == token.SHR {
+			a, ta := t.transI(e.X)
+			b, tb := t.transI(e.Y)
+			if ta != "U64" || (tb != "U64" && tb != "") {
+				t.fail(e, "shift of a %s by a %s", ta, tb)
+			}
+			return fmt.Sprintf("(IShr %s %s)", a, b), "U64"
+		}
 		ctor := map[token.Token]string{token.ADD: "IAdd", token.SUB: "ISub", token.MUL: "IMul", token.AND: "IAnd"}[e.Op]
 		if ctor != "" {
 			a, ta := t.transI(e.X)
@@ -614,14 +753,31 @@ func (t *translator) transI(e ast.Expr) (string, string) {
 			a, _ := t.transI(e.Args[0])
 			return fmt.Sprintf("(IConv %s %s)", ty, a), ty
 		}
-		if fn == "math.Byte" && len(e.Args) == 3 {
-			x := t.transP(e.Args[0])
-			p, _ := t.transI(e.Args[1])
-			n, tn := t.transI(e.Args[2])
-			if tn != "I64" && tn != "" {
-				t.fail(e, "math.Byte index of type %s", tn)
+		if fn == t.pStack+".len" && len(e.Args) == 0 {
+			return "IStackLen", "I64"
+		}
+		if fn == "len" && len(e.Args) == 1 && !t.lookupShadow("len") {
+			if t.str(e.Args[0]) == t.pContract+".Code" {
+				return "ICodeLen", "I64"
 			}
-			return fmt.Sprintf("(IByte %s %s %s)", x, p, n), "U8"
+			if id, ok := e.Args[0].(*ast.Ident); ok {
+				if v, ok := t.lookupVar(id.Name); ok && v.sort == sWords {
+					return fmt.Sprintf("(IBitsLen (PVar %d))", v.of), "I64"
+				}
+			}
+		}
+		// calls of integer-valued functions of the translated packages are inlined
+		if sel, ok := e.Fun.(*ast.SelectorExpr); ok {
+			if pk, ok := isPkgIdent(sel.X, "math", "common"); ok && !t.lookupShadow(pk) {
+				if p := t.pkgs[pk]; p != nil && p.funcs[sel.Sel.Name] != nil {
+					return t.inlineInt(p, p.funcs[sel.Sel.Name], e)
+				}
+			}
+		}
+		if id, ok := e.Fun.(*ast.Ident); ok && !t.lookupShadow(id.Name) {
+			if fd := t.pkg.funcs[id.Name]; fd != nil && !t.returnsBig(fd) {
+				return t.inlineInt(t.pkg, fd, e)
+			}
 		}
 		if fn == t.pMemory+".Len" && len(e.Args) == 0 {
 			return "IMemLen", "I64"
@@ -694,6 +850,260 @@ func (t *translator) transC(e ast.Expr) string {
 	return ""
 }
 
+// pkgConst evaluates an integer constant of the current package.  The only
+// platform dependent one the translated code uses is the size of a big.Word
+// (common/math: wordBits = 32 << (uint64(^big.Word(0)) >> 63)), which is
+// evaluated for the platform the harness runs on.
+func (t *translator) pkgConst(name string) (int64, bool) {
+	e, ok := t.pkg.consts[name]
+	if !ok {
+		return 0, false
+	}
+	return t.constExpr(e)
+}
+
+func (t *translator) constExpr(e ast.Expr) (int64, bool) {
+	switch e := e.(type) {
+	case *ast.ParenExpr:
+		return t.constExpr(e.X)
+	case *ast.BasicLit:
+		return t.tryConstInt(e)
+	case *ast.Ident:
+		return t.pkgConst(e.Name)
+	case *ast.BinaryExpr:
+		if t.str(e) == "32 << (uint64(^big.Word(0)) >> 63)" {
+			return int64(32 << (uint64(^big.Word(0)) >> 63)), true
+		}
+		a, ok1 := t.constExpr(e.X)
+		b, ok2 := t.constExpr(e.Y)
+		if ok1 && ok2 {
+			switch e.Op {
+			case token.QUO:
+				if b != 0 {
+					return a / b, true
+				}
+			case token.MUL:
+				return a * b, true
+			case token.ADD:
+				return a + b, true
+			case token.SUB:
+				return a - b, true
+			}
+		}
+	}
+	return 0, false
+}
+
+func goIty(typ string) string {
+	switch typ {
+	case "uint", "uint64", "big.Word":
+		return "U64"
+	case "int", "int64":
+		return "I64"
+	case "byte", "uint8":
+		return "U8"
+	}
+	return ""
+}
+
+// inlineInt translates a call of an integer-valued function whose body is
+//   { x := e | words := p.Bits() | if c { return e } }* return e
+// with *big.Int parameters (the arguments must be variables) and integer ones.
+func (t *translator) inlineInt(p *pkgInfo, fd *ast.FuncDecl, call *ast.CallExpr) (string, string) {
+	if fd.Recv != nil || fd.Type.Results == nil || len(fd.Type.Results.List) != 1 {
+		t.fail(call, "cannot inline %s", fd.Name.Name)
+	}
+	rty := goIty(t.str(fd.Type.Results.List[0].Type))
+	if rty == "" {
+		t.fail(call, "cannot inline %s: result type %s", fd.Name.Name, t.str(fd.Type.Results.List[0].Type))
+	}
+	type par struct {
+		name, typ string
+	}
+	var params []par
+	for _, f := range fd.Type.Params.List {
+		for _, n := range f.Names {
+			params = append(params, par{n.Name, t.str(f.Type)})
+		}
+	}
+	if len(params) != len(call.Args) {
+		t.fail(call, "cannot inline %s: arity", fd.Name.Name)
+	}
+	// arguments in the caller's scope
+	type bound struct {
+		ptrID int
+		term  string
+		ity   string
+	}
+	args := make([]bound, len(params))
+	for i, a := range call.Args {
+		if params[i].typ == "*big.Int" {
+			id, ok := a.(*ast.Ident)
+			v, ok2 := varInfo{}, false
+			if ok {
+				v, ok2 = t.lookupVar(id.Name)
+			}
+			if !ok || !ok2 || v.sort != sPtr {
+				t.fail(call, "cannot inline %s: *big.Int argument %s is not a variable", fd.Name.Name, t.str(a))
+			}
+			args[i] = bound{ptrID: v.id}
+		} else {
+			ity := goIty(params[i].typ)
+			if ity == "" {
+				t.fail(call, "cannot inline %s: parameter type %s", fd.Name.Name, params[i].typ)
+			}
+			term, ta := t.transI(a)
+			if ta != "" && ta != ity {
+				t.fail(call, "cannot inline %s: argument of type %s for a %s", fd.Name.Name, ta, ity)
+			}
+			args[i] = bound{ptrID: -1, term: term, ity: ity}
+		}
+	}
+	savedPkg, savedScopes := t.pkg, t.scopes
+	t.pkg, t.scopes = p, nil
+	t.push()
+	ids := make([]int, len(params))
+	for i, pr := range params {
+		if args[i].ptrID >= 0 {
+			t.scopes[0][pr.name] = varInfo{id: args[i].ptrID, sort: sPtr}
+		} else {
+			ids[i] = t.declare(pr.name, sInt, args[i].ity).id
+		}
+	}
+	body := t.intBody(fd, fd.Body.List, rty)
+	t.pkg, t.scopes = savedPkg, savedScopes
+	for i := len(params) - 1; i >= 0; i-- {
+		if args[i].ptrID < 0 {
+			body = fmt.Sprintf("(ILet %d (* %s.%s *) %s %s)", ids[i], fd.Name.Name, params[i].name, args[i].term, body)
+		}
+	}
+	return body, rty
+}
+
+func (t *translator) intBody(fd *ast.FuncDecl, stmts []ast.Stmt, rty string) string {
+	if len(stmts) == 0 {
+		t.fail(fd, "cannot inline %s: body does not end in a return", fd.Name.Name)
+	}
+	ret := func(r *ast.ReturnStmt) string {
+		if len(r.Results) != 1 {
+			t.fail(r, "cannot inline %s: return arity", fd.Name.Name)
+		}
+		e, ty := t.transI(r.Results[0])
+		if ty != "" && ty != rty {
+			t.fail(r, "cannot inline %s: returns a %s, declared %s", fd.Name.Name, ty, rty)
+		}
+		return e
+	}
+	switch s := stmts[0].(type) {
+	case *ast.ReturnStmt:
+		return ret(s)
+	case *ast.IfStmt:
+		if s.Init != nil || s.Else != nil || len(s.Body.List) != 1 {
+			t.fail(s, "cannot inline %s: unsupported if", fd.Name.Name)
+		}
+		r, ok := s.Body.List[0].(*ast.ReturnStmt)
+		if !ok {
+			t.fail(s, "cannot inline %s: if body is not a single return", fd.Name.Name)
+		}
+		c := t.transC(s.Cond)
+		a := ret(r)
+		return fmt.Sprintf("(IIf %s %s %s)", c, a, t.intBody(fd, stmts[1:], rty))
+	case *ast.AssignStmt:
+		if s.Tok == token.DEFINE && len(s.Lhs) == 1 && len(s.Rhs) == 1 {
+			id, ok := s.Lhs[0].(*ast.Ident)
+			if !ok {
+				break
+			}
+			// words := x.Bits()
+			if c, ok := s.Rhs[0].(*ast.CallExpr); ok && len(c.Args) == 0 {
+				if sel, ok := c.Fun.(*ast.SelectorExpr); ok && sel.Sel.Name == "Bits" {
+					if x, ok := sel.X.(*ast.Ident); ok {
+						if v, ok := t.lookupVar(x.Name); ok && v.sort == sPtr {
+							t.scopes[len(t.scopes)-1][id.Name] = varInfo{sort: sWords, of: v.id}
+							return t.intBody(fd, stmts[1:], rty)
+						}
+					}
+				}
+			}
+			e, ty := t.transI(s.Rhs[0])
+			if ty == "" {
+				ty = "I64"
+			}
+			v := t.declare(id.Name, sInt, ty)
+			return fmt.Sprintf("(ILet %d (* %s *) %s %s)", v.id, id.Name, e, t.intBody(fd, stmts[1:], rty))
+		}
+	}
+	t.fail(stmts[0], "cannot inline %s: unsupported statement %s", fd.Name.Name, t.str(stmts[0]))
+	return ""
+}
+
+// inlineStackMethod translates a call st.m(args) of a method of Stack declared
+// in stack.go: the receiver stays the EVM stack, a *intPool argument must be
+// the interpreter's pool, int arguments are bound to fresh variables.
+func (t *translator) inlineStackMethod(method string, call *ast.CallExpr) []string {
+	fd := t.pkgs["vm"].funcs["Stack."+method]
+	if fd == nil || fd.Type.Results != nil {
+		t.fail(call, "unknown stack method %s", method)
+	}
+	recv := fd.Recv.List[0].Names[0].Name
+	var pre []string
+	type bind struct {
+		name string
+		v    varInfo
+	}
+	var binds []bind
+	var newPools []string
+	i := 0
+	for _, f := range fd.Type.Params.List {
+		for _, n := range f.Names {
+			if i >= len(call.Args) {
+				t.fail(call, "%s arity", method)
+			}
+			a := call.Args[i]
+			i++
+			switch typ := t.str(f.Type); typ {
+			case "*intPool":
+				if t.poolFn("x", t.str(a)+".x") == "\x00no-pool" {
+					t.fail(call, "argument %s is not the interpreter's integer pool", t.str(a))
+				}
+				newPools = append(newPools, n.Name)
+			default:
+				ity := goIty(typ)
+				if ity == "" {
+					t.fail(call, "%s: parameter of type %s", method, typ)
+				}
+				term, ta := t.transI(a)
+				if ta != "" && ta != ity {
+					t.fail(call, "%s: argument of type %s for a %s", method, ta, ity)
+				}
+				v := varInfo{id: t.nextVar, sort: sInt, ity: ity}
+				t.nextVar++
+				t.varName[v.id] = n.Name
+				pre = append(pre, fmt.Sprintf("(SDefI %d (* %s.%s *) %s)", v.id, method, n.Name, term))
+				binds = append(binds, bind{n.Name, v})
+			}
+		}
+	}
+	if i != len(call.Args) {
+		t.fail(call, "%s arity", method)
+	}
+	savedStack, savedPools, savedScopes, savedDefers := t.pStack, t.pools, t.scopes, t.defers
+	t.pStack, t.pools, t.scopes = recv, append(append([]string{}, t.pools...), newPools...), nil
+	t.push()
+	for _, b := range binds {
+		t.scopes[0][b.name] = b.v
+	}
+	out := pre
+	for _, st := range fd.Body.List {
+		if _, isRet := st.(*ast.ReturnStmt); isRet {
+			t.fail(st, "return inside stack method %s", method)
+		}
+		out = append(out, t.stmt(st)...)
+	}
+	t.pStack, t.pools, t.scopes, t.defers = savedStack, savedPools, savedScopes, savedDefers
+	return out
+}
+
 // ---- statements -------------------------------------------------------------
 
 func seq(ss []string) string {
@@ -745,6 +1155,7 @@ func (t *translator) stmt(s ast.Stmt) []string {
 				ptr  bool
 				term string
 				ity  string
+				hash bool
 			}
 			var defs []def
 			for i, l := range s.Lhs {
@@ -757,19 +1168,24 @@ func (t *translator) stmt(s ast.Stmt) []string {
 						t.fail(s, "definition refers to a name it defines")
 					}
 				}
-				if t.isPtr(s.Rhs[i]) {
-					defs = append(defs, def{id.Name, true, t.transP(s.Rhs[i]), ""})
+				if t.isHash(s.Rhs[i]) {
+					defs = append(defs, def{id.Name, false, t.transH(s.Rhs[i]), "", true})
+				} else if t.isPtr(s.Rhs[i]) {
+					defs = append(defs, def{id.Name, true, t.transP(s.Rhs[i]), "", false})
 				} else {
 					term, ty := t.transI(s.Rhs[i])
 					if ty == "" {
 						ty = "I64"
 					}
-					defs = append(defs, def{id.Name, false, term, ty})
+					defs = append(defs, def{id.Name, false, term, ty, false})
 				}
 			}
 			var out []string
 			for _, d := range defs {
-				if d.ptr {
+				if d.hash {
+					v := t.declare(d.name, sHash, "")
+					out = append(out, fmt.Sprintf("(SDefH %d (* %s *) %s)", v.id, d.name, d.term))
+				} else if d.ptr {
 					v := t.declare(d.name, sPtr, "")
 					out = append(out, fmt.Sprintf("(SDefP %d (* %s *) %s)", v.id, d.name, d.term))
 				} else {
@@ -778,6 +1194,42 @@ func (t *translator) stmt(s ast.Stmt) []string {
 				}
 			}
 			return out
+		}
+		// st.data[i], st.data[j] = st.data[j], st.data[i]
+		if s.Tok == token.ASSIGN && len(s.Lhs) == 2 && len(s.Rhs) == 2 &&
+			t.str(s.Lhs[0]) == t.str(s.Rhs[1]) && t.str(s.Lhs[1]) == t.str(s.Rhs[0]) {
+			a, ok1 := s.Lhs[0].(*ast.IndexExpr)
+			b, ok2 := s.Lhs[1].(*ast.IndexExpr)
+			if ok1 && ok2 && t.str(a.X) == t.pStack+".data" && t.str(b.X) == t.pStack+".data" {
+				i, ti := t.transI(a.Index)
+				j, tj := t.transI(b.Index)
+				if (ti != "I64" && ti != "") || (tj != "I64" && tj != "") {
+					t.fail(s, "stack indexes of types %s %s", ti, tj)
+				}
+				return []string{fmt.Sprintf("(SStackSwap %s %s)", i, j)}
+			}
+		}
+		// *pc += e
+		if s.Tok == token.ADD_ASSIGN && len(s.Lhs) == 1 && len(s.Rhs) == 1 {
+			if st, ok := s.Lhs[0].(*ast.StarExpr); ok && t.str(st.X) == t.pPC {
+				e, ty := t.transI(s.Rhs[0])
+				if ty != "U64" && ty != "" {
+					t.fail(s, "*pc += a %s", ty)
+				}
+				return []string{fmt.Sprintf("(SDefI pcvar (* *pc *) (IAdd U64 (IVar pcvar) %s))", e)}
+			}
+		}
+		// assignment to an integer variable
+		if s.Tok == token.ASSIGN && len(s.Lhs) == 1 && len(s.Rhs) == 1 {
+			if id, ok := s.Lhs[0].(*ast.Ident); ok {
+				if v, ok := t.lookupVar(id.Name); ok && v.sort == sInt {
+					e, ty := t.transI(s.Rhs[0])
+					if ty != "" && ty != v.ity {
+						t.fail(s, "assignment of a %s to a %s", ty, v.ity)
+					}
+					return []string{fmt.Sprintf("(SDefI %d (* %s = *) %s)", v.id, id.Name, e)}
+				}
+			}
 		}
 		if s.Tok == token.ASSIGN && len(s.Lhs) == 1 && len(s.Rhs) == 1 {
 			if ix, ok := s.Lhs[0].(*ast.IndexExpr); ok && t.str(ix.X) == t.pMemory+".store" {
@@ -792,19 +1244,36 @@ func (t *translator) stmt(s ast.Stmt) []string {
 				return []string{fmt.Sprintf("(SMemStore8 %s %s)", o, v)}
 			}
 		}
+	case *ast.IncDecStmt:
+		if id, ok := s.X.(*ast.Ident); ok {
+			if v, ok := t.lookupVar(id.Name); ok && v.sort == sInt {
+				op := "IAdd"
+				if s.Tok == token.DEC {
+					op = "ISub"
+				}
+				return []string{fmt.Sprintf("(SDefI %d (* %s%s *) (%s %s (IVar %d) (IConst (1))))", v.id, id.Name, s.Tok.String(), op, v.ity, v.id)}
+			}
+		}
 	case *ast.ExprStmt:
 		call, ok := s.X.(*ast.CallExpr)
 		if !ok {
 			break
 		}
 		fn := t.str(call.Fun)
+		if sel, ok := call.Fun.(*ast.SelectorExpr); ok && t.str(sel.X) == t.pStack {
+			switch sel.Sel.Name {
+			case "push", "pop", "peek", "len":
+			default:
+				return t.inlineStackMethod(sel.Sel.Name, call)
+			}
+		}
 		switch fn {
 		case t.pStack + ".push":
 			if len(call.Args) != 1 {
 				t.fail(s, "push arity")
 			}
 			return []string{fmt.Sprintf("(SPush %s)", t.transP(call.Args[0]))}
-		case t.pInterp + ".intPool.put":
+		case t.poolFn("put", fn):
 			if call.Ellipsis != token.NoPos {
 				t.fail(s, "put(slice...) is not supported")
 			}
@@ -813,6 +1282,13 @@ func (t *translator) stmt(s ast.Stmt) []string {
 				as = append(as, t.transP(a))
 			}
 			return []string{fmt.Sprintf("(SPut %s)", vf.List(as))}
+		case t.pInterp + ".evm.StateDB.SetState":
+			if len(call.Args) != 3 {
+				t.fail(s, "SetState arity")
+			}
+			t.contractAddr(call.Args[0])
+			k := t.transH(call.Args[1])
+			return []string{fmt.Sprintf("(SSetState %s %s)", k, t.transH(call.Args[2]))}
 		case t.pMemory + ".Set32":
 			if len(call.Args) != 2 {
 				t.fail(s, "Set32 arity")
@@ -877,7 +1353,7 @@ func (t *translator) stmt(s ast.Stmt) []string {
 		}
 		return []string{res}
 	case *ast.DeferStmt:
-		if t.str(s.Call.Fun) != t.pInterp+".intPool.put" || s.Call.Ellipsis != token.NoPos {
+		if fn := t.str(s.Call.Fun); fn != t.poolFn("put", fn) || s.Call.Ellipsis != token.NoPos {
 			t.fail(s, "only 'defer intPool.put(variables)' is supported")
 		}
 		var as []string
@@ -906,35 +1382,137 @@ func (t *translator) stmt(s ast.Stmt) []string {
 	return nil
 }
 
-func (t *translator) opBody(name string) string {
-	fd := t.pkgs["vm"].funcs[name]
-	if fd == nil {
-		t.fail(nil, "function %s not found in core/vm/instructions.go", name)
-	}
-	t.where = name
+func (t *translator) resetFunc(where string) {
+	t.where = where
 	t.pkg = t.pkgs["vm"]
 	t.scopes = nil
 	t.defers = nil
 	t.nextVar = 0
+}
+
+// execBody translates the statements of an executionFunc (declared or literal).
+func (t *translator) execBody(at ast.Node, typ *ast.FuncType, body *ast.BlockStmt) []string {
 	var names []string
-	for _, f := range fd.Type.Params.List {
+	for _, f := range typ.Params.List {
 		for _, n := range f.Names {
 			names = append(names, n.Name)
 		}
 	}
 	if len(names) != 5 {
-		t.fail(fd, "not an executionFunc")
+		t.fail(at, "not an executionFunc")
 	}
 	t.pPC, t.pInterp, t.pContract, t.pMemory, t.pStack = names[0], names[1], names[2], names[3], names[4]
+	t.pools = []string{t.pInterp + ".intPool"}
 	t.push()
 	var out []string
-	for _, s := range fd.Body.List {
+	for _, s := range body.List {
 		out = append(out, t.stmt(s)...)
 	}
 	if len(out) == 0 || out[len(out)-1] != "SReturn" {
-		t.fail(fd, "body does not end in 'return nil, nil'")
+		t.fail(at, "body does not end in 'return nil, nil'")
 	}
-	return seq(out)
+	return out
+}
+
+func (t *translator) opBody(name string) string {
+	fd := t.pkgs["vm"].funcs[name]
+	if fd == nil {
+		t.fail(nil, "function %s not found in core/vm/instructions.go", name)
+	}
+	t.resetFunc(name)
+	return seq(t.execBody(fd, fd.Type, fd.Body))
+}
+
+// closure translates a function  func makeX(p1 T1, ...) executionFunc { pre...; return func(...) {...} }
+// into a body parameterised by p1, ... (Coq variables a0, a1, ...).
+func (t *translator) closure(name string) (nparams int, body string) {
+	fd := t.pkgs["vm"].funcs[name]
+	if fd == nil || fd.Recv != nil {
+		t.fail(nil, "function %s not found in core/vm/instructions.go", name)
+	}
+	t.resetFunc(name)
+	t.pPC, t.pInterp, t.pContract, t.pMemory, t.pStack = "\x00", "\x00", "\x00", "\x00", "\x00"
+	t.push()
+	var out []string
+	for _, f := range fd.Type.Params.List {
+		ity := goIty(t.str(f.Type))
+		if ity == "" {
+			t.fail(fd, "closure parameter of type %s", t.str(f.Type))
+		}
+		for _, n := range f.Names {
+			v := t.declare(n.Name, sInt, ity)
+			out = append(out, fmt.Sprintf("(SDefI %d (* %s *) (IConst a%d))", v.id, n.Name, nparams))
+			nparams++
+		}
+	}
+	for i, s := range fd.Body.List {
+		if r, ok := s.(*ast.ReturnStmt); ok {
+			if i != len(fd.Body.List)-1 || len(r.Results) != 1 {
+				t.fail(r, "unsupported return")
+			}
+			fl, ok := r.Results[0].(*ast.FuncLit)
+			if !ok {
+				t.fail(r, "closure maker does not return a function literal")
+			}
+			outer := t.scopes
+			inner := t.execBody(fl, fl.Type, fl.Body)
+			_ = outer
+			return nparams, seq(append(out, inner...))
+		}
+		out = append(out, t.stmt(s)...)
+	}
+	t.fail(fd, "closure maker does not end in a return")
+	return 0, ""
+}
+
+// closureArgs reads, from the composite literals of jump_table.go, the literal
+// arguments of the closure makers:  PUSH1: {execute: makePush(1, 1), ...}
+func closureArgs(t *translator, file string) map[string][]string {
+	af, err := parser.ParseFile(t.fset, file, nil, 0)
+	if err != nil {
+		fmt.Fprintln(os.Stderr, "c15 ops: cannot parse", file, err)
+		os.Exit(3)
+	}
+	res := map[string][]string{}
+	ast.Inspect(af, func(n ast.Node) bool {
+		kv, ok := n.(*ast.KeyValueExpr)
+		if !ok {
+			return true
+		}
+		key, ok := kv.Key.(*ast.Ident)
+		cl, ok2 := kv.Value.(*ast.CompositeLit)
+		if !ok || !ok2 {
+			return true
+		}
+		for _, el := range cl.Elts {
+			f, ok := el.(*ast.KeyValueExpr)
+			if !ok || t.str(f.Key) != "execute" {
+				continue
+			}
+			call, ok := f.Value.(*ast.CallExpr)
+			if !ok {
+				continue
+			}
+			args := []string{t.str(call.Fun)}
+			for _, a := range call.Args {
+				k, ok := t.tryConstInt(a)
+				if !ok {
+					args = nil
+					break
+				}
+				args = append(args, fmt.Sprint(k))
+			}
+			if args != nil {
+				if old, dup := res[key.Name]; dup && strings.Join(old, ",") != strings.Join(args, ",") {
+					fmt.Fprintln(os.Stderr, "c15 ops: opcode", key.Name, "has two different closure entries in jump_table.go")
+					os.Exit(3)
+				}
+				res[key.Name] = args
+			}
+		}
+		return true
+	})
+	return res
 }
 
 func (t *translator) fingerprint(p *pkgInfo, name string) string {
@@ -968,7 +1546,7 @@ func repoRoot(flagRepo string) string {
 
 func newTranslator(root string) *translator {
 	t := &translator{fset: token.NewFileSet(), pkgs: map[string]*pkgInfo{}, globIdx: map[string]int{}, varName: map[int]string{}}
-	t.parsePkg("vm", filepath.Join(root, "core/vm/instructions.go"))
+	t.parsePkg("vm", filepath.Join(root, "core/vm/instructions.go"), filepath.Join(root, "core/vm/stack.go"))
 	t.parsePkg("math", filepath.Join(root, "common/math/big.go"))
 	t.parsePkg("common", filepath.Join(root, "common/big.go"))
 	t.preregister()
@@ -981,13 +1559,43 @@ func ops(out, flagRepo string) {
 	var sb strings.Builder
 	sb.WriteString("(* GENERATED by harness/cmd/c15 (ops) from the go/ast of core/vm/instructions.go,\n   common/math/big.go and common/big.go of the working tree. Do not edit. *)\n")
 	sb.WriteString("From VF.C15 Require Import Model.\nLocal Open Scope N_scope.\nLocal Open Scope string_scope.\n\n")
-	var defs []string
+	translated := map[string]bool{}
 	for _, name := range translatedOps {
 		body := t.opBody(name)
 		sb.WriteString(fmt.Sprintf("Definition body_%s : stmt :=\n  %s.\n\n", name, body))
-		defs = append(defs, fmt.Sprintf("(\"%s\", body_%s)", name, name))
+		translated[name] = true
 	}
-	sb.WriteString("Definition op_bodies : list (string * stmt) :=\n  " + vf.List(defs) + ".\n\n")
+	closureParams := map[string]int{}
+	for _, name := range translatedClosures {
+		n, body := t.closure(name)
+		var ps []string
+		for i := 0; i < n; i++ {
+			ps = append(ps, fmt.Sprintf("a%d", i))
+		}
+		sb.WriteString(fmt.Sprintf("Definition body_%s (%s : Z) : stmt :=\n  %s.\n\n", name, strings.Join(ps, " "), body))
+		closureParams[name] = n
+	}
+	// the statement each opcode executes: by the execute function of the running
+	// jump table; closures with the literal arguments written in jump_table.go
+	cargs := closureArgs(t, filepath.Join(root, "core/vm/jump_table.go"))
+	var defs []string
+	for op, o := range jumpTable() {
+		if !o.Valid {
+			continue
+		}
+		switch {
+		case translated[o.Execute]:
+			defs = append(defs, fmt.Sprintf("(%d, (\"%s\", body_%s))", op, o.Execute, o.Execute))
+		case closureParams[o.Execute] > 0:
+			a := cargs[o.Name]
+			if len(a) == 0 || a[0] != o.Execute || len(a)-1 != closureParams[o.Execute] {
+				fmt.Fprintf(os.Stderr, "c15 ops: no literal arguments of %s found for opcode %s in jump_table.go\n", o.Execute, o.Name)
+				os.Exit(3)
+			}
+			defs = append(defs, fmt.Sprintf("(%d, (\"%s\", body_%s %s))", op, o.Execute, o.Execute, strings.Join(a[1:], " ")))
+		}
+	}
+	sb.WriteString("Definition op_bodies : list (N * (string * stmt)) :=\n  " + strings.Join(strings.Split(vf.List(defs), "; "), ";\n   ") + ".\n\n")
 	sb.WriteString("(* package level *big.Int variables read by the bodies: cell i holds globals[i] *)\n")
 	var gs []string
 	for i, v := range t.globVal {
